@@ -114,6 +114,33 @@ func runThorough(r *Run) (map[string]any, bool) {
 		jobs = append(jobs, job{"seeded/" + e.Name(), "seeded", meta.Summary,
 			[]string{"-with-patch", filepath.Join(sdir, e.Name(), "patch.diff"), "-property", r.Prop, "-tier", "quick", "-no-evidence"}, expect})
 	}
+	// behaviour-preserving refactors kept under /verif/benign/<id>/: negative controls, the check must stay silent
+	bdir := filepath.Join(verifDir(), "benign")
+	bents, _ := os.ReadDir(bdir)
+	for _, e := range bents {
+		if !e.IsDir() {
+			continue
+		}
+		mb, err := os.ReadFile(filepath.Join(bdir, e.Name(), "meta.json"))
+		if err != nil {
+			continue
+		}
+		var meta seededMeta
+		if json.Unmarshal(mb, &meta) != nil {
+			continue
+		}
+		applies := meta.Property == r.Prop
+		for _, a := range meta.AlsoBreaks {
+			if a == r.Prop {
+				applies = true
+			}
+		}
+		if !applies {
+			continue
+		}
+		jobs = append(jobs, job{"benign/" + e.Name(), "benign", meta.Summary,
+			[]string{"-with-patch", filepath.Join(bdir, e.Name(), "patch.diff"), "-property", r.Prop, "-tier", "quick", "-no-evidence"}, false})
+	}
 	results := make([]mutantResult, len(jobs))
 	sem := make(chan struct{}, 6)
 	var wg sync.WaitGroup
@@ -142,6 +169,11 @@ func runThorough(r *Run) (map[string]any, bool) {
 				}
 			}
 			switch {
+			case j.kind == "benign" && code == 0:
+				res.Outcome = "silent (as required)"
+			case j.kind == "benign" && code == 1:
+				res.Outcome = "FALSE-ALARM"
+				res.Report = firstViol
 			case code == 1:
 				res.Outcome = "killed"
 				res.Report = firstViol
@@ -166,7 +198,7 @@ func runThorough(r *Run) (map[string]any, bool) {
 		switch {
 		case x.Outcome == "killed":
 			killed++
-		case x.Outcome == "SURVIVED":
+		case x.Outcome == "SURVIVED", x.Outcome == "FALSE-ALARM":
 			broken = true
 		case strings.HasPrefix(x.Outcome, "invalid"):
 			broken = true
